@@ -26,6 +26,17 @@ def to_method_form(n, rng, names, p=0.5):
 
 
 def check_one(t, src, data):
+    try:
+        _check_one(t, src, data)
+    except RecursionError:
+        # the converted "tree" cannot be walked: it is cyclic or shares a growing list (seed C17_h:
+        # one keyword list shared by every call node the library builds)
+        t.violation("change_extension_functions_to_calls:ensures same(result, erase_method_form(q))",
+                    "the result is not a finite tree (walking it does not terminate)", src, None,
+                    "RecursionError while examining the result", {"kind": "C17", "src": src})
+
+
+def _check_one(t, src, data):
     from func_adl.ast.func_adl_ast_utils import (change_extension_functions_to_calls,
                                                  default_list_of_functions)
     names = list(default_list_of_functions)
